@@ -17,11 +17,12 @@ def load_known():
 
 
 class Instance:
-    __slots__ = ('rule', 'file', 'function', 'key', 'ok', 'detail', 'line')
+    __slots__ = ('rule', 'file', 'function', 'key', 'ok', 'detail', 'line', 'unrecognised')
 
     def __init__(self, rule, file, function, key, ok, detail, line):
         self.rule, self.file, self.function, self.key = rule, file, function, key
         self.ok, self.detail, self.line = ok, detail, line
+        self.unrecognised = None
 
     def as_dict(self):
         return {'rule': self.rule, 'file': self.file, 'function': self.function, 'key': self.key,
@@ -77,7 +78,8 @@ class Ctx:
 
     # -- results -------------------------------------------------------------
     def violations(self):
-        return [i for i in self.instances if not i.ok]
+        # (instances in functions rewritten beyond recognition give no verdict: recognise.guard)
+        return [i for i in self.instances if not i.ok and not getattr(i, 'unrecognised', None)]
 
     def by_rule(self):
         out = {}
